@@ -5,7 +5,7 @@
    property directly.  Termination of the MODEL is by construction (structural recursion on fuel); that the fuel the
    driver passes suffices is observed on every run (no FUEL outcome), not yet proved.  Proved so far - the tokenizer's
    behaviour on the token classes the top-level loop dispatches on (for every amount of leading horizontal whitespace): *)
-Require Import Bebop.front.Tok Bebop.front.TokInv Bebop.front.LexInv Bebop.front.Parse Bebop.front.ParseInv Bebop.front.FmtInv Bebop.front.MsgInv.
+Require Import Bebop.front.Tok Bebop.front.TokInv Bebop.front.LexInv Bebop.front.Parse Bebop.front.ParseInv Bebop.front.FmtInv Bebop.front.MsgInv Bebop.front.GenInv Bebop.front.Items.
 From Coq Require Import List NArith.
 Import ListNotations.
 
@@ -109,3 +109,24 @@ Proof.
   split; [apply dlayout_sep|]. eexists. vm_compute. reflexivity.
 Qed.
 Print Assumptions C11_records.
+
+(* And with ENUMS, through the item framework of front/GenInv.v (each kind of definition contributes its tokens, what it adds
+   to the File and one step lemma for the top-level loop; front/Items.v has the three instances): a schema is any sequence
+   of struct, message and enum definitions (enums untyped, members with plain decimal values).  For EVERY such schema and
+   EVERY layout ReadFile returns the File the text states, which schema_file_spec writes out: each kind of definition in
+   source order, nothing else. *)
+Definition C11_schema_statement : Prop :=
+  (forall dl lay tail,
+     Forall sdefn_ok dl -> map snd lay = schema_lexemes dl -> Forall (fun p => hws (fst p)) lay -> sep_ok lay -> hws tail ->
+     exists s', read_file (render lay tail) false = POk (schema_file dl) s') /\
+  (forall dl,
+     structs (schema_file dl) = flat_map (fun d => match d with SStruct nm fl _ => [struct_of (ibytes nm) (map (fun f => (ibytes (fst f), ibytes (snd f))) fl)] | _ => [] end) dl /\
+     messages (schema_file dl) = flat_map (fun d => match d with SMessage nm fl _ => [message_of (ibytes nm) (map bmf fl)] | _ => [] end) dl /\
+     enums (schema_file dl) = flat_map (fun d => match d with SEnum nm ml _ => [enum_of (ibytes nm) (map bem ml)] | _ => [] end) dl /\
+     unions (schema_file dl) = [] /\ consts (schema_file dl) = [] /\ imports (schema_file dl) = [] /\ gopackage (schema_file dl) = []).
+Theorem C11_schema : C11_schema_statement.
+Proof.
+  split; [|exact schema_file_spec]. intros dl lay tail H1 H2 H3 H4 H5.
+  destruct (schema_laws dl lay tail H1 H2 H3 H4 H5) as (y & _ & _ & _ & _ & Hr). exact Hr.
+Qed.
+Print Assumptions C11_schema.
